@@ -263,6 +263,24 @@ def run_plan(plan):
             sender.refs[kk] = v
         sender.refs.set_symbolic_ref(b"HEAD", sorted(
             kk for kk in srefs if kk.startswith(b"refs/heads/"))[0])
+        # the sender's own view of history may be edited by graft points
+        # (info/grafts): what it *sends* are the real objects, whose real
+        # parents the receiver needs (own generator: the other plans of a
+        # seed stay what they were)
+        grng = random.Random(derive_seed(plan["seed"], "c05graft"))
+        if grng.random() < 0.2:
+            withp = [c for c in commits if len(u.edges[c]) > 1]
+            lines = []
+            for c in grng.sample(withp, min(len(withp), grng.choice([1, 2]))):
+                newp = [] if grng.random() < 0.5 else \
+                    [grng.choice(commits)]
+                if c in newp:
+                    newp = []
+                lines.append(c + b"".join(b" " + x for x in newp) + b"\n")
+            if lines:
+                sender._put_named_file(os.path.join("info", "grafts"),
+                                       b"".join(lines))
+                sim.stat("probe:sender_has_graft_points")
         sender.close()
 
         rrefs = {}
